@@ -36,7 +36,19 @@ func (c *Ctx) evalCall(x *ast.CallExpr) *Val {
 				if fo.Pkg() != nil && c.E.ByPath[fo.Pkg().Path()] == nil {
 					return c.libCall(fo, x, se)
 				}
-				base := c.eval(se.X)
+				var base *Val
+				if rs := fo.Type().(*types.Signature).Recv(); rs != nil && len(sel.Index()) == 1 {
+					_, wantPtr := rs.Type().Underlying().(*types.Pointer)
+					_, havePtr := recvExprT.Underlying().(*types.Pointer)
+					if _, isStruct := recvExprT.Underlying().(*types.Struct); wantPtr && !havePtr && isStruct {
+						// x.M() with pointer receiver on an addressable struct: (&x).M()
+						base = c.addressOf(se.X)
+						recvExprT = types.NewPointer(recvExprT)
+					}
+				}
+				if base == nil {
+					base = c.eval(se.X)
+				}
 				recv := c.methodReceiver(base, recvExprT, sel)
 				args := c.evalArgs(x, fo.Type().(*types.Signature))
 				return c.invoke(fo, recv, args, x)
